@@ -233,9 +233,10 @@ def run(chk):
         if made is not None and not refused:
             # an accepted grid is stored in ascending order (the blocks, the half-open evaluation and is_below_x all rely on it):
             # points given in another order are a valid grid, not a different one
-            stored = made.attrs.get("grid")
-            vals = [dag.as_const(dag.tonode(v)) for v in stored.flat()] if isinstance(stored, Arr) else None
-            chk.decide(vals is not None and vals == sorted(grid_), "accepted-grid-is-ascending", fxi.qname,
+            stored = pe.getattr(made, "raw")
+            chk.need(isinstance(stored, Arr), "XGrid.raw of an accepted grid is not an array any more")
+            vals = [dag.as_const(dag.tonode(v)) for v in stored.flat()]
+            chk.decide(vals == sorted(grid_), "accepted-grid-is-ascending", fxi.qname,
                        f"points given as {[str(v) for v in grid_]} are stored as {[str(v) for v in vals] if vals else stored}; required ascending "
                        f"order: with areas whose lower edge lies above the upper one the basis is no partition of unity", where=fxi.where,
                        instance="order:" + ",".join(str(v) for v in grid_), how="PE")
